@@ -95,3 +95,82 @@ theorem qabs_neg (x : Q) : qabs (-x) = qabs x := by
   by_cases h1 : x < 0 <;> by_cases h2 : -x < 0 <;> simp [h1, h2] <;> linarith
 
 end Gearpy
+
+namespace Gearpy
+open Kind
+variable {T : Tbl}
+
+theorem qabs_mul_pos (x f : Q) (hf : 0 < f) : qabs (x * f) = qabs x * f := by
+  unfold qabs
+  by_cases hx : x < 0
+  · have : x * f < 0 := mul_neg_of_neg_of_pos hx hf
+    simp [hx, this]
+  · have : ¬ x * f < 0 := by
+      rw [not_lt] at hx ⊢; exact mul_nonneg hx hf.le
+    simp [hx, this]
+
+/-- scaling both operands and the tolerance by a positive factor does not change a comparison:
+    comparing raw values in the left operand's unit = comparing SI magnitudes with the tolerance
+    expressed in SI -/
+theorem cmpRaw_scale (tol f x y : Q) (c : Cmp) (e : Bool) (hf : 0 < f) :
+    cmpRaw (tol * f) c e (x * f) (y * f) = cmpRaw tol c e x y := by
+  have h1 : x * f - y * f = (x - y) * f := by ring
+  have hne : f ≠ 0 := ne_of_gt hf
+  unfold cmpRaw
+  cases e
+  · simp only [Bool.false_eq_true, if_false, h1, qabs_mul_pos _ _ hf]
+    cases c <;> simp only [decide_eq_decide]
+    · exact mul_lt_mul_iff_of_pos_right hf
+    · exact mul_lt_mul_iff_of_pos_right hf
+    · rw [← neg_mul]; exact mul_lt_mul_iff_of_pos_right hf
+    · exact mul_le_mul_iff_of_pos_right hf
+    · exact mul_lt_mul_iff_of_pos_right hf
+    · rw [← neg_mul]; exact mul_le_mul_iff_of_pos_right hf
+  · simp only [if_true]
+    cases c
+    · simp only [Bool.beq_eq_decide_eq, decide_eq_decide]; exact mul_left_inj' hne
+    · simp only [bne, Bool.beq_eq_decide_eq, Bool.not_eq_eq_eq_not, Bool.not_not, decide_eq_decide]; exact mul_left_inj' hne
+    · simp only [decide_eq_decide]; exact mul_lt_mul_iff_of_pos_right hf
+    · simp only [decide_eq_decide]; exact mul_le_mul_iff_of_pos_right hf
+    · simp only [decide_eq_decide]; exact mul_lt_mul_iff_of_pos_right hf
+    · simp only [decide_eq_decide]; exact mul_le_mul_iff_of_pos_right hf
+
+/-- one comparison method is a function of the two SI magnitudes, of whether the operands carry the
+    same unit, and of the tolerance expressed in SI through the receiver's unit -/
+theorem cmpDirect_si (g : T.Good) (c : Cmp) (a o : Qty) (hf : baseOf a.kind = baseOf o.kind) :
+    cmpDirect T c a o = cmpRaw (T.tol * T.f a.kind a.unit) c (a.unit == o.unit) (siMag T a) (siMag T o) := by
+  have hp := g.pos a.kind a.unit
+  have key : conv T o a.unit * T.f a.kind a.unit = siMag T o := by
+    rw [fam_eq g hf a.unit]; exact conv_mul g o a.unit
+  unfold cmpDirect
+  rw [← cmpRaw_scale T.tol (T.f a.kind a.unit) a.value (conv T o a.unit) c _ hp, key]
+  rfl
+
+/-- the operand whose method actually runs (CPython's reflected dispatch), and the operator it is asked -/
+def effLeft (a o : Qty) : Qty := if reflected a.kind o.kind then o else a
+def effRight (a o : Qty) : Qty := if reflected a.kind o.kind then a else o
+def effCmp (c : Cmp) (a o : Qty) : Cmp := if reflected a.kind o.kind then swapCmp c else c
+
+/-- a comparison between two quantities is a function of their SI magnitudes, of whether they
+    carry the same unit, and of the tolerance expressed in SI through the unit of the operand
+    whose method runs -/
+theorem cmp_si (g : T.Good) (c : Cmp) (a o : Qty) (b : Bool) (h : cmp T c a (.q o) = .ok b) :
+    b = cmpRaw (T.tol * T.f (effLeft a o).kind (effLeft a o).unit) (effCmp c a o)
+          ((effLeft a o).unit == (effRight a o).unit) (siMag T (effLeft a o)) (siMag T (effRight a o)) := by
+  unfold cmp at h; simp only at h
+  split at h
+  · simp at h
+  · rename_i hf
+    have hf' : baseOf a.kind = baseOf o.kind := (sameFamily_iff _ _).mp (by simpa using hf)
+    unfold effLeft effRight effCmp
+    split at h
+    · rename_i hr
+      simp only [Except.ok.injEq] at h
+      simp only [hr, if_true]
+      rw [← h]; exact cmpDirect_si g _ o a hf'.symm
+    · rename_i hr
+      simp only [Except.ok.injEq] at h
+      simp only [hr]
+      rw [← h]; exact cmpDirect_si g _ a o hf'
+
+end Gearpy
